@@ -1054,6 +1054,8 @@ func runC10(c *Ctx) {
 	// R12 (shared with C17.R3): the attribute flags a handler reads through AttrFlags() are the bits the client sent
 	checkAttrFlagBits(c, "R12")
 	checkStartDirectoryIsTheBase(c, "R2")
+	// R13 (shared with C11.R17): the error a handler object returns from Close is what the client's Close gets
+	checkCloseErrorsKept(c, "R13")
 }
 
 // checkRepliesFixedWhenHandlerReturns (R11): a reply is marshalled by the packet manager's controller after it was
